@@ -793,7 +793,8 @@ class H2Connection:
             stream_id, AllowedStreamIDs(self.config.client_side)
         )
         frames = stream.send_headers(
-            headers, self.encoder, end_stream
+            headers, self.encoder, end_stream,
+            priority_present=priority_present
         )
 
         # We may need to send priority information.
